@@ -245,6 +245,30 @@ kscript_load(const char *path)
 }
 
 /* ------------------------------------------------------------------------- */
+/* The kernels store whole vector registers into manager scratch, including registers they never
+ * loaded: what the CALLER left there ends up in manager memory.  Twin managers are compared byte by
+ * byte, so the harness enters the library with all vector registers zero. */
+static void
+k_scrub_regs(void)
+{
+        static int has512 = -1;
+
+        if (has512 < 0)
+                has512 = __builtin_cpu_supports("avx512f") ? 1 : 0;
+        __asm__ volatile("vzeroall" ::: "xmm0", "xmm1", "xmm2", "xmm3", "xmm4", "xmm5", "xmm6", "xmm7", "xmm8", "xmm9",
+                         "xmm10", "xmm11", "xmm12", "xmm13", "xmm14", "xmm15");
+        if (has512)
+                __asm__ volatile("vpxord %zmm16,%zmm16,%zmm16\n\tvpxord %zmm17,%zmm17,%zmm17\n\t"
+                                 "vpxord %zmm18,%zmm18,%zmm18\n\tvpxord %zmm19,%zmm19,%zmm19\n\t"
+                                 "vpxord %zmm20,%zmm20,%zmm20\n\tvpxord %zmm21,%zmm21,%zmm21\n\t"
+                                 "vpxord %zmm22,%zmm22,%zmm22\n\tvpxord %zmm23,%zmm23,%zmm23\n\t"
+                                 "vpxord %zmm24,%zmm24,%zmm24\n\tvpxord %zmm25,%zmm25,%zmm25\n\t"
+                                 "vpxord %zmm26,%zmm26,%zmm26\n\tvpxord %zmm27,%zmm27,%zmm27\n\t"
+                                 "vpxord %zmm28,%zmm28,%zmm28\n\tvpxord %zmm29,%zmm29,%zmm29\n\t"
+                                 "vpxord %zmm30,%zmm30,%zmm30\n\tvpxord %zmm31,%zmm31,%zmm31");
+}
+
+/* ------------------------------------------------------------------------- */
 /* running ops on one manager */
 
 typedef struct {
@@ -385,6 +409,7 @@ k_run_op(kctx *c, int opno)
                 return k_flush_all(c);
         }
         imbh_str_add(&tr, "%s T %d %c", c->tag, opno, o->op);
+        k_scrub_regs();
         switch (o->op) {
         case 'J':
         case 'N':
@@ -586,6 +611,7 @@ k_print_occupancy(IMB_MGR *mgr, const char *tag, FILE *out)
 static IMB_MGR *
 k_init_arch(IMB_MGR *mgr, const char *arch)
 {
+        k_scrub_regs();
         if (!strcmp(arch, "sse"))
                 init_mb_mgr_sse(mgr);
         else if (!strcmp(arch, "avx2"))
